@@ -526,6 +526,28 @@ func churnProgram(rng *rand.Rand, n int, big bool, variant int) *program {
 	return p
 }
 
+// mixedProgram alternates tiny and nearly table-sized entries: tables are sealed almost empty (the next entry did not fit), and
+// their few entries die with the next overwrite.  A table without live entries must not survive a completed compaction.
+func mixedProgram(rng *rand.Rand, rounds int) *program {
+	keys := keysN(4)
+	T := 4096
+	p := &program{Src: "mixed", T: T, IdleMs: 0, Keys: keys, ObsEvery: 5, Pattern: "^[abc]"}
+	raw := rng.Intn(2) == 0
+	o := "put"
+	if raw {
+		o = "putraw"
+	}
+	for i := 0; i < rounds; i++ {
+		p.Ops = append(p.Ops, op{Op: o, K: keys[rng.Intn(2)], Sz: 100 + rng.Intn(60)})
+		p.Ops = append(p.Ops, op{Op: o, K: keys[2+rng.Intn(2)], Sz: T - 150 - rng.Intn(400)})
+		if rng.Intn(4) == 0 {
+			p.Ops = append(p.Ops, op{Op: "del", K: keys[rng.Intn(4)]})
+		}
+		p.Ops = append(p.Ops, op{Op: "compactall"})
+	}
+	return p
+}
+
 // largeProgram uses the default table size (1 MiB) and entries of tens to hundreds of KiB: what compaction moves in one
 // step, and what fits a table, is counted in bytes as well as in entries.
 func largeProgram(rng *rand.Rand, n int) *program {
@@ -625,6 +647,9 @@ func TestKV(t *testing.T) {
 	}
 	for i := 0; i < envInt("VERIF_KV_CHURN", 0); i++ {
 		progs = append(progs, churnProgram(rng, envInt("VERIF_KV_CHURN_LEN", 3000), false, i))
+	}
+	for i := 0; i < envInt("VERIF_KV_MIXED", 0); i++ {
+		progs = append(progs, mixedProgram(rng, 60))
 	}
 	for i := 0; i < envInt("VERIF_KV_LARGE", 0); i++ {
 		progs = append(progs, largeProgram(rng, 60))
